@@ -3,7 +3,7 @@
 #   demo passes on the unchanged tree, fails with the patch, and the whole suite passes with the patch.
 # On success copies it to /verif/seeded/<prop>-<k>/ with meta.json.
 set -u
-P=$1; K=$2; W=/tmp/seed-$P; O=$W/_out
+P=$1; K=$2; W=${SEED_DIR:-/tmp/seed-$P}; O=$W/_out; KK=$(( K + ${SEED_OFFSET:-0} ))
 export PATH=/opt/veriftools/go1.26.8/bin:$PATH GOTOOLCHAIN=local GOFLAGS=-mod=mod GOPROXY=off GOSUMDB=off
 cd $W || exit 2
 git checkout -q -- . ; git clean -fdq -e _out
@@ -20,9 +20,9 @@ rm -f $d/zz_seed_demo_test.go
 git checkout -q -- . ; git clean -fdq -e _out
 echo "prop=$P k=$K demo_clean_exit=$r_clean demo_patched_exit=$r_patched suite_patched_exit=$r_suite"
 if [ "$r_clean" = 0 ] && [ "$r_patched" != 0 ] && [ "$r_suite" = 0 ]; then
-  D=/verif/seeded/$P-$K; mkdir -p $D
+  D=/verif/seeded/$P-$KK; mkdir -p $D
   cp $O/patch_$K.diff $D/patch.diff; cp $O/demo_${K}_test.go $D/demo_test.go; cp $O/notes_$K.md $D/notes.md
-  python3 - "$P" "$K" "$d" "$names" <<'PY'
+  python3 - "$P" "$KK" "$d" "$names" <<'PY'
 import json,sys
 P,K,d,names=sys.argv[1:5]
 notes=open(f'/verif/seeded/{P}-{K}/notes.md').read()
